@@ -95,6 +95,19 @@ Definition go_deref {A : Type} (p : option A) : gres A :=
 
 Definition go_is_nil {A : Type} (p : option A) : bool := match p with Some _ => false | None => true end.
 
+(** [*byte]: the start of a run of bytes in memory = [Some l] with [l] the bytes from that address
+    to the end of the allocation, [None] = nil. [unsafe.Slice(p, n)]: nil pointer with [n = 0] is
+    the nil slice, a negative [n] (or nil with [n <> 0]) panics; reaching past the allocation is
+    undefined behaviour in Go and [GPanic] here. [unsafe.SliceData(s)] of a non-empty slice points
+    at [s] (the translator's sources only use it on non-empty slices). *)
+Definition go_unsafe_slice (p : option (list Z)) (n : Z) : gres (list Z) :=
+  match p with
+  | None => if n =? 0 then GOk [] else GPanic
+  | Some l => if (0 <=? n) && (n <=? go_len l) then GOk (firstn (Z.to_nat n) l) else GPanic
+  end.
+Definition go_slice_data (s : list Z) : option (list Z) :=
+  match s with [] => None | _ => Some s end.
+
 (** * encoding/binary.BigEndian *)
 Definition be_get (k : nat) (b : list Z) : gres Z :=
   if go_len b <? Z.of_nat k then GPanic else GOk (be_dec (firstn k b)).
@@ -114,7 +127,7 @@ Arguments LDone {S R} s.
 Arguments LRetd {S R} r.
 
 (** [for i, v := range l { body }] with [i] starting at [i0] *)
-Fixpoint range_loop {S R : Type} (f : Z -> Z -> S -> gres (lctl S R)) (i0 : Z) (l : list Z) (s : S)
+Fixpoint range_loop {E S R : Type} (f : Z -> E -> S -> gres (lctl S R)) (i0 : Z) (l : list E) (s : S)
   : gres (lres S R) :=
   match l with
   | [] => GOk (LDone s)
@@ -207,7 +220,7 @@ Lemma be_put_ok k b v : Z.of_nat k <= go_len b -> be_put k b v = GOk (be_enc k v
 Proof. intros. unfold be_put. destruct (go_len b <? Z.of_nat k) eqn:C; [lia|reflexivity]. Qed.
 
 (** a [range] loop whose body never panics, breaks or returns is a left fold *)
-Lemma range_loop_fold {S R : Type} (f : Z -> Z -> S -> gres (lctl S R)) (g : S -> Z -> S) :
+Lemma range_loop_fold {E S R : Type} (f : Z -> E -> S -> gres (lctl S R)) (g : S -> E -> S) :
   (forall i v s, f i v s = GOk (LNext (g s v))) ->
   forall l i0 s, range_loop f i0 l s = GOk (LDone (fold_left g l s)).
 Proof.
@@ -216,7 +229,7 @@ Proof.
 Qed.
 
 (** the same with the body constrained only on the elements of the list (e.g. bytes in range) *)
-Lemma range_loop_fold_in {S R : Type} (f : Z -> Z -> S -> gres (lctl S R)) (g : S -> Z -> S) :
+Lemma range_loop_fold_in {E S R : Type} (f : Z -> E -> S -> gres (lctl S R)) (g : S -> E -> S) :
   forall l, (forall i v s, In v l -> f i v s = GOk (LNext (g s v))) ->
   forall i0 s, range_loop f i0 l s = GOk (LDone (fold_left g l s)).
 Proof.
